@@ -293,6 +293,14 @@ fn main() {
             }
         }
     }
+    // a backlog: more callers than the actor's queue holds (flume::bounded(1000)) - a caller whose
+    // request does not fit must wait for room, not lose the request
+    for kind in ["ct", "mt"] {
+        for r in 0..(if args.thorough() { 6 } else { 2 }) {
+            run_mix(&mut w, kind, 3, 1500 + 300 * r as usize, 3, 7_500_000 + r as u64, rng.next() % 100_000);
+            w.stats.hit("mix_backlog_over_queue_capacity");
+        }
+    }
     for kind in ["ct", "mt"] {
         for &(k, m) in &[(2usize, 100usize), (4, 200), (8, 300)] {
             for r in 0..reps {
